@@ -62,6 +62,16 @@ def corpus(env):
                     s.call("ss_open", mode=0, skr="$kR.sk", enc="$q2.enc", info="-", ct="$q2.full", aad="-", api="alloc")
                 s.call("export", ctx="S", exctx="-", len=40)
                 s.call("export", ctx="R", exctx="-", len=40)
+                # long inputs everywhere a caller can put them (fixed-size scratch buffers differ per feature set)
+                for L in (300, 491, 600, 5000):
+                    s.call("export", ctx="R", exctx="@z:61:%d" % L, len=64)
+                big = dict(psk="@z:70:700", pskid="@z:69:900") if mode in (1, 3) else {}
+                if mode in (2, 3):
+                    big.update(sks="$kS.sk", pks="$kS.pk")
+                s.call("setup_s", mode=mode, pkr="$kR.pk", info="@z:62:3000", rng=g.rbytes(gen.nsk(kem)), out="BS", **big)
+                s.call("export", ctx="BS", exctx="@z:63:2000", len=8160)
+                if aead != 0xFFFF:
+                    s.call("seal", ctx="BS", api="inplace", pt="@z:64:5000", aad="@z:65:70000", out="bm")
                 s.call("from_bytes", kind="pk", bytes="$kR.pk^flip:9")
                 s.call("from_bytes", kind="sk", bytes="$kR.sk^trunc:5")
                 s.call("encap", pkr="$kR.pk", rng=g.rbytes(gen.nsk(kem)), out="e")
@@ -74,7 +84,9 @@ def subsets(tier):
     if tier == "thorough":
         return allsubs
     pick = [(), ("alloc",), ("std",), ("x25519",), ("p256",), ("p384",), ("p521",), ("alloc", "p256", "x25519"),
-            tuple(FEATS), ("alloc", "p384"), ("std", "p521")]
+            tuple(FEATS), ("alloc", "p384"), ("std", "p521"),
+            # pairs of KEMs without the largest one, with the defaults, without alloc
+            ("alloc", "x25519", "p256", "p384"), ("std", "p384", "p521"), ("x25519", "p384")]
     return pick
 
 
